@@ -24,6 +24,8 @@ def Err.name : Err → String
 /-- Result of a modelled call: `ok v`, `error e` (an `Err` returned by the crate) or `error .Panic`. -/
 abbrev Chk := Except Err
 
+deriving instance DecidableEq for Except
+
 def I32_MIN : Int := -2147483648
 def I32_MAX : Int := 2147483647
 def I64_MIN : Int := -9223372036854775808
